@@ -119,6 +119,14 @@ func typeStr(t types.Type) string {
 	if t == nil {
 		return "?"
 	}
+	if b, ok := t.(*types.Basic); ok {
+		switch b.Kind() { // aliases byte/rune print by their canonical names
+		case types.Uint8:
+			return "uint8"
+		case types.Int32:
+			return "int32"
+		}
+	}
 	return types.TypeString(t, func(p *types.Package) string {
 		return shortPkg(p.Path())
 	})
